@@ -32,7 +32,7 @@ for name, r in res.items():
     meta = {
         'property': name.split('-')[0],
         'summary': agent.get('summary'),
-        'needs_to_manifest': agent.get('needs'),
+        'needs_to_manifest': agent.get('needs') or agent.get('needs_to_manifest'),
         'files': agent.get('files'),
         'confirmed': {
             'existing_test_suite_with_change': r['tests'],
